@@ -62,9 +62,33 @@ def pickle_frame(entries, proto):
   return struct.pack('!I', len(body)) + body
 
 
+def py2_pickle_frame(entries):
+  """What a Python 2 client's cPickle.dumps(list, protocol=2) puts on the wire:
+  metric names are *byte* strings (SHORT_BINSTRING), numbers BINFLOAT."""
+  out = [b'\x80\x02]', b'(']
+  for name, (ts, v) in entries:
+    nb = name.encode('utf-8')
+    if len(nb) < 256:
+      out.append(b'U' + bytes([len(nb)]) + nb)
+    else:
+      out.append(b'T' + struct.pack('<i', len(nb)) + nb)
+    out.append(b'G' + struct.pack('>d', float(ts)))
+    out.append(b'G' + struct.pack('>d', float(v)))
+    out.append(b'\x86\x86')
+  out.append(b'e.')
+  body = b''.join(out)
+  return struct.pack('!I', len(body)) + body
+
+
 # ---- malformed items, built by construction ---------------------------------
 def bad_line(rng):
-  k = rng.randrange(12)
+  k = rng.randrange(15)
+  if k == 12:
+    return b'\xff' * rng.choice([401, 600, 3000]) + b' 1 2\n'       # long and undecodable
+  if k == 13:
+    return b'word ' * rng.choice([90, 500]) + b'\n'                  # long, too many fields
+  if k == 14:
+    return ('µ' * 450).encode('utf-8')[:-1] + b' 1 2\n'              # long, cut inside a character
   if k == 0:
     return b'\xff\xfe 1 2\n'
   if k == 1:
@@ -192,7 +216,10 @@ def build_tcp_client(rng, kind, nitems, bad_rate, names=None, allow_close=False,
       else:
         k = rng.choice([0, 1, 1, 2, 5, 12])
         ds = [good_dp(rng, names) for _ in range(k)]
-        stream += pickle_frame([(d[0], (d[1], d[2])) for d in ds], rng.choice([0, 1, 2, 3, 4, 5]))
+        if ds and rng.random() < 0.25:
+          stream += py2_pickle_frame([(d[0], (d[1], d[2])) for d in ds])
+        else:
+          stream += pickle_frame([(d[0], (d[1], d[2])) for d in ds], rng.choice([0, 1, 2, 3, 4, 5]))
         items.append({'start': start, 'end': len(stream), 'dps': ds})
   return {'kind': kind, 'stream': stream, 'items': items}
 
@@ -285,6 +312,9 @@ def gen_steps(rng, clients, extra_ops=None):
     r = rng.random()
     if r < 0.03:
       steps.append(['pause'])
+    elif r > 0.96:
+      # the pause is raised by the pipeline while a chunk is being processed
+      steps.append(['pause_at', rng.choice([1, 1, 2, 3, 5])])
     elif r < 0.08:
       steps.append(['resume'])
     elif r < 0.1:
